@@ -1152,10 +1152,24 @@ fn emit_obs(sh: &Shared, why: &str) {
     let mut g = sh.trace.out.lock().unwrap();
     let client = sh.client();
     let alive = client.as_ref().map(|c| !c.is_dead()).unwrap_or(false);
-    let db = db_snapshot(sh, alive);
+    let mut db = db_snapshot(sh, alive);
     let mut mem = Value::Null;
     if alive && !sh.wedged.load(Ordering::SeqCst) {
         mem = mem_snapshot(sh, Duration::from_millis(1500));
+        // The two reads are not one atomic observation: the rows are read from the database file, the memory through
+        // listtowers (which waits for the client's state mutex).  A handler that completed between them would show as
+        // "memory and disk disagree".  The rows are read again after the memory: if they moved, the observation is retaken.
+        for _ in 0..4 {
+            if mem.is_null() {
+                break;
+            }
+            let db2 = db_snapshot(sh, alive);
+            if db2 == db {
+                break;
+            }
+            db = db2;
+            mem = mem_snapshot(sh, Duration::from_millis(1500));
+        }
         if mem.is_null() && !client.as_ref().unwrap().is_dead() {
             // no answer: once more, patiently; then either a reported panic explains it (poisoned state mutex) or the
             // machine is too slow for this scenario to mean anything
